@@ -19,9 +19,14 @@ Definition rows_eqb : list (list Z) -> list (list Z) -> bool := leqb (leqb Z.eqb
    returned encoder / predictor rows *)
 Inductive jcall := JCall (has_ctx : bool) (B : Z) (tr : list draw) (enc pred : list (list Z)).
 
+(* one call of the DINO collator: with/without ctx, batch size, recorded draws, returned masks *)
+Inductive dcall := DCall (has_ctx : bool) (B : Z) (tr : list draw) (out : list mask).
+
 Inductive case_t :=
-| CDino (c : dcfg) (has_ctx : bool) (B : Z) (tr : list draw) (out : list mask)
-| CIjepa (c : jcfg) (sizes : list raw4) (instances : list (list jcall)).
+| CDino (c : dcfg) (calls : list dcall)       (* successive calls on ONE collator object *)
+| CIjepa (c : jcfg) (sizes : list raw4) (instances : list (Z * list jcall)).
+   (* per instance: the value of _itr_counter before its first call (-1 for a new collator object; a DataLoader worker
+      sees the shared counter wherever the other workers left it) and its successive calls *)
 
 Definition sizes_fun (l : list raw4) : Z -> raw4 := fun s => nth (Z.to_nat s) l (0, 0, 0, 0).
 
@@ -47,15 +52,19 @@ Fixpoint check_calls (c : jcfg) (sizes : Z -> raw4) (ctr : Z) (calls : list jcal
 
 Definition check (t : case_t) : nat :=
   match t with
-  | CDino c has_ctx B tr out =>
-      let spec := if has_ctx then (if dino_okb c B out then 0%nat else 2%nat) else 0%nat in
-      let model :=
-        match dino_call c tt has_ctx B tr with
-        | Ok (_, Some ms) => if masks_eqb ms out then 0%nat else 1%nat
-        | Ok (_, None) => match out with [] => 0%nat | _ => 1%nat end
-        | _ => 1%nat
-        end in
-      worst spec model
+  | CDino c calls =>
+      (* every call of the sequence against the spec for ITS batch size and against the model's sequence semantics *)
+      let outs := dino_seq c (map (fun '(DCall has_ctx B tr _) => (has_ctx, B, tr)) calls) in
+      fold_right worst 0%nat
+        (map2 (fun '(DCall has_ctx B tr out) r =>
+                 let spec := if has_ctx then (if dino_okb c B out then 0%nat else 2%nat) else 0%nat in
+                 let model :=
+                   match r with
+                   | Ok (_, Some ms) => if masks_eqb ms out then 0%nat else 1%nat
+                   | Ok (_, None) => match out with [] => 0%nat | _ => 1%nat end
+                   | _ => 1%nat
+                   end in
+                 worst spec model) calls outs)
   | CIjepa c sizes instances =>
-      fold_right (fun calls a => worst (check_calls c (sizes_fun sizes) (-1) calls) a) 0%nat instances
+      fold_right (fun inst a => worst (check_calls c (sizes_fun sizes) (fst inst) (snd inst)) a) 0%nat instances
   end.
